@@ -33,6 +33,8 @@ def runs(prop, tier):
          ("blob grammar K=3,T=2 x patterns U, M3, k in {%s}" % ks_q, [["--grammar", "blobs:3:2", "--alpha", a, "--ks", ks_q] for a in ("U", "M3")]),
          ("dense families x U", [["--families", "K:6,K:7,wheel:6,prism:4,petersen,Kb:3:4,grid:3:4,cube:3", "--alpha", "U", "--ks", ks_q]]),
          ("G(5) x {1,100} (extreme weight ratio)", [["--n", 5, "--alpha", "H2", "--ks", ks_q]]),
+         ("weights spanning 60 binary orders of magnitude: G(4) x A3 and G(5) x A2, each with one more component = a single edge weighing 2^60",
+          [["--n", 4, "--alpha", "A3", "--ks", ks_q, "--plus-heavy-k2"], ["--n", 5, "--alpha", "A2", "--ks", ks_q, "--plus-heavy-k2"], ["--n", 5, "--alpha", "H2", "--ks", ks_q, "--plus-heavy-k2", "--min-m", 7]]),
          ("symmetric families under 30 renumberings x U, M2", [["--families", FAMS_SYM, "--relabel", 30, "--alpha", a, "--ks", ks_q] for a in ("U", "M2")]),
          ("G(5) with at most 6 edges x PM2 (every assignment of distinct powers of two), k in {%s}" % ks_q, [["--n", 5, "--alpha", "PM2", "--max-m", 6, "--ks", ks_q]]),
          ("edge orientation reversed / alternating: G(0..4) x A3, G(5) x A2", [["--n", n, "--alpha", "A3", "--ks", ks_q, "--orient", o] for n in range(2, 5) for o in (1, 2)] + [["--n", 5, "--alpha", "A2", "--ks", ks_q, "--orient", 1]]),
